@@ -426,8 +426,8 @@ example : ∃ s, srun (SOP.init 12 4 3) [.create, .create, .destroy 32, .create]
 `pool_init` and `pool_engage` are separate calls: a pool may be given further
 zones at any point of its life (`static_object_pool::freelist()` exists for
 that).  A history is any list of `engage base size elemsz` / `alloc` / `free c`;
-it is rejected (`none`) only when `pool_engage` refuses the zone (its asserts:
-`elemsz ≥ sizeof(struct slist_head) = 8`, `size % elemsz = 0`), for a zone overlapping
+it is rejected (`none`) only when the zone is refused (`engageRefused`: `elemsz <
+sizeof(struct slist_head) = 8` or `size % elemsz ≠ 0`), for a zone overlapping
 an earlier one, or for `free` of a cell that is not allocated.  Zones may have different sizes AND different element sizes.
 `capacity zones` = the sum of `size / elemsz` over the zones engaged so far;
 `InZone z c` = `c = z.base + i * z.elemsz` for some `i < size / elemsz`. -/
@@ -532,7 +532,7 @@ theorem mpool_engage_stores_inside_zone (b n e fuel : Nat) (he : 8 ≤ e) :
 
 /-- no store of a pool request (the links written by `pool_engage` into a new
 zone, the link written by `pool_free`) touches a cell that is handed out before
-and after the request (element sizes ≥ 8 = size of the link: what `pool_engage` asserts) … -/
+and after the request (element sizes ≥ 8 = size of the link: the precondition of `pool_engage`) … -/
 theorem mpool_no_clobber (ops : List MOp) (s s' : MState) (op : MOp) (r : Option Nat)
     (hr : mrun MState.init ops = some s) (hs : mstep s op = some (s', r)) :
     ∀ ev ∈ mstepEvs s op, ∀ c ∈ s.live, c ∈ s'.live → ∀ z ∈ s'.zones, InZone z c →
@@ -571,9 +571,10 @@ theorem mpool_ptr_run_refines (ops : List MOp) (s : MState) (m : Links) (head : 
 The list-level theorems above hold for the list model with any `elemsz > 0`.  The
 CODE keeps the list in the cells: `pool_engage` / `pool_free` store an 8-byte link
 at the start of every free cell.  That is sound exactly when a cell can hold the
-link; after `fix: pool_engage() asserts that a cell can hold the free-list link`
-the routine refuses smaller element sizes (`engageRefused`), and the multi-zone
-histories (`mstep`) reject them. -/
+link; after `fix: igris::pool::init() asserts that a cell can hold the free-list link`
+the class refuses smaller element sizes (`engageRefused`), for the C function
+`pool_engage` it is the documented precondition, and the multi-zone histories
+(`mstep`) reject them. -/
 
 /-- with `elemsz ≥ 8` every link store of `pool_engage` is the first 8 bytes of a
 cell of the zone and stays inside that cell: no two link fields overlap, none
@@ -593,7 +594,7 @@ theorem pool_links_inside_cells (e b n fuel : Nat) (he : 8 ≤ e) :
 below the size of the link.  Witness: `elemsz = 4`, a zone of 16 bytes — the link
 stores are 8 bytes at 0, 4, 8, 12: neighbouring links overlap and the last one
 leaves the zone (real code: ASan heap-buffer-overflow, `pool_avail` segfaults).
-The repaired `pool_engage` refuses the request (assert), the histories reject it. -/
+The repaired `igris::pool::init` refuses the request (assert), the histories reject it. -/
 theorem pool_elemsz_below_link_witness :
     engageEvs 4 16 17 0 = [.w 0 8, .w 4 8, .w 8 8, .w 12 8] ∧ ¬ (Ev.w 12 8).Inside 0 16 ∧
     engageRefused 16 4 = true ∧ mstep MState.init (.engage 0 16 4) = none :=
